@@ -13,7 +13,7 @@ from streams.cluster import hx
 
 NO_MODEL = True
 HEADER = 3
-REQUIRED_SHAPES = ["destroy_with_previous_owner", "slow_consumer_during_handover", "write_during_routing_update", "join", "leave", "stacked_handovers", "read_with_previous_owner", "delete_with_previous_owner", "overwrite_with_previous_owner", "between_table_moves",
+REQUIRED_SHAPES = ["counter_race_with_previous_owner", "destroy_with_previous_owner", "slow_consumer_during_handover", "write_during_routing_update", "join", "leave", "stacked_handovers", "read_with_previous_owner", "delete_with_previous_owner", "overwrite_with_previous_owner", "between_table_moves",
                    "stable_all_members_read", "exactly_once_primary", "backups_kept", "prefixed_dmap_name"]
 DMS = ["dm", "dmap.x", "x"]
 
@@ -49,7 +49,7 @@ class Oracle:
             self.handover = True
             self.hit("join")
             return None
-        if name == "c.inter":
+        if name == "c.inter" and a[0] == "routing.computed":
             # a member joins; inside the coordinator's routing update - the new table is computed, not yet pushed - a Put
             sep = a.index("--")
             head = reply.split()[0]
@@ -78,7 +78,26 @@ class Oracle:
         if name == "c.balance":
             self.hit("between_table_moves")
             return None
+        if name == "c.incr":
+            ck = (a[2], a[3])
+            cnt = self.__dict__.setdefault("cnt", {})
+            cnt[ck] = cnt.get(ck, 0) + int(a[4])
+            if self.handover:
+                self.hit("counter_with_previous_owner")
+            return None if reply == str(cnt[ck]) else (
+                "Incr of a counter of DMap %s through m%s answered %s, %d increments were acknowledged before it: an update was lost" % (a[2], a[1], reply[:30], cnt[ck] - int(a[4])))
+        if name == "c.inter" and a[0] == "atomic.read":
+            # two Incr of one counter, the second started inside the first one's read-modify-write: both count
+            sep = a.index("--")
+            outer, inner = a[1:sep], a[sep + 1:]
+            cnt = self.__dict__.setdefault("cnt", {})
+            ck = (outer[3], outer[4])
+            cnt[ck] = cnt.get(ck, 0) + int(outer[5]) + int(inner[5])
+            self.hit("counter_race_with_previous_owner")
+            return None
         if name == "c.destroy":
+            for ck in [ck for ck in self.__dict__.get("cnt", {}) if ck[0] == a[2]]:
+                del self.cnt[ck]
             if reply != "ok":
                 return "Destroy answered %s" % reply
             for dk in [dk for dk in self.exp if dk[0] == a[2]]:
@@ -123,7 +142,7 @@ class Oracle:
             if not reply.startswith("n="):
                 return "iteration over %s: %s" % (dm, reply[:80])
             got = reply.split()[1:]
-            live = {k for (d, k) in self.exp if d == dm}
+            live = {k for (d, k) in list(self.exp) + list(self.__dict__.get('cnt', {})) if d == dm}
             self.hit("scan_during_handover" if self.handover else "scan_after_stabilisation")
             if name == "c.scanall" and len(set(got)) != len(got):
                 return "the client iterator over %s yielded a key twice: %s" % (dm, sorted(got)[:12])
@@ -176,7 +195,7 @@ class Oracle:
                     prim[k] = prim.get(k, 0) + 1
                 for k in ([] if b[2:] == "-" else b[2:].split(",")):
                     bak[k] = bak.get(k, 0) + 1
-            live = {k for (d, k) in self.exp if d == dm}
+            live = {k for (d, k) in list(self.exp) + list(self.__dict__.get('cnt', {})) if d == dm}
             R, N = int(self.cfg.get("r", 1)), len(self.alive)
             for k in sorted(set(prim) | set(bak) | live):
                 if k not in live:
@@ -327,6 +346,8 @@ class Gen:
 
         for op in op_mix(40):
             yield op
+        for j in range(3):
+            yield "c.incr emb %d dm %s 1" % (r.choice(alive), hx(b"ctr%d" % j))
         for _ in range(nops or 3):
             x = r.random()
             during = None
@@ -380,6 +401,15 @@ class Gen:
             # previous owners still hold everything: reads, overwrites, deletes from every member
             for op in op_mix(10):
                 yield op
+            if r.random() < 0.6:
+                # a counter that exists since before the join: Incr through every member while previous owners are listed, one
+                # of them started inside another one's read-modify-write; the next plain Incr tells whether all of them counted
+                cd, ck = "dm", hx(b"ctr%d" % r.randrange(3))
+                for m in alive:
+                    yield "c.incr emb %d %s %s 1" % (m, cd, ck)
+                m1, m2 = r.choice(alive), r.choice(alive)
+                yield "c.inter atomic.read c.incr emb %d %s %s 1 -- c.incr emb %d %s %s 1" % (m1, cd, ck, m2, cd, ck)
+                yield "c.incr emb %d %s %s 1" % (r.choice(alive), cd, ck)
             if r.random() < 0.3:
                 # Destroy while previous owners still hold (all of) the DMap: every copy goes, wherever it lives
                 d = r.choice(DMS)
